@@ -101,6 +101,8 @@ def configs(tier, seed=0):
         tot = 3 if tier == 'quick' else 4
         if alg == 'NUTS' or (alg == 'NUTSflat' and tier == 'quick'):
             tot = 2
+        elif alg == 'NUTSflat':
+            tot = 3          # 8 coin outcomes per transition at max_depth 1: 8^3 = 512 paths per configuration (8^4 does not fit the budget)
         if alg == 'NUTSflat0':
             tot = 1          # only the warm-up configuration below
         for N in range(1, tot):
